@@ -10,8 +10,10 @@
 (* Recorded values:  [t |-> "mv"|"sc"|"err"|"other", mv |-> terms,         *)
 (*                    sc |-> coef, err |-> exception class]                *)
 (*   terms = sequence of << increasing index word, << num, den, kind >> >> *)
-(*   coef kind 0 int, 1 Fraction, 2 float (exact), 3 bool, 9 not exact     *)
-(*   (then num = den = 0).                                                 *)
+(*   coef kind 0 int, 1 Fraction, 2 float (exact), 3 bool; beyond the      *)
+(*   bounds of the model (then num = den = 0): 6 Fraction, 7 int, 8 finite *)
+(*   float whose exact value in lowest terms is beyond the bounds, 9 other *)
+(*   (non-finite float, not a number).                                     *)
 (***************************************************************************)
 EXTENDS C18_Clifford, Json, IOUtils
 VARIABLES blk, off
@@ -360,6 +362,89 @@ HistClauses(c, o) ==
            Cl("ctor-value", "b", Both(MVIs(o.s0[2], B, n), St(FALSE, ZeroWords(o.s0[2]) = {}))) >>
         \o Steps(1) \o After(o.oa, A, "used-a", o.s0[1]) \o After(o.ob, B, "used-b", o.s0[2])
 
+(********************************* spc *************************************)
+(* The way the space is constructed is an input (c.sm), the operands have    *)
+(* exact coefficients (ints, Fractions) and the metric entries are exact     *)
+(* numbers in every generated construction.  Then                            *)
+(*   * every result is EXACTLY the M-layer value.  A recorded float whose    *)
+(*     exact value lies beyond the bounds of the model (kind 8) is decided:  *)
+(*     the expected coefficient is a rational in lowest terms WITHIN the     *)
+(*     bounds (the expected multivector is not MVBad), so the two differ;    *)
+(*   * every coefficient is of an exact kind of number: sums and products of *)
+(*     ints and Fractions are ints and Fractions; a float is the mark of a   *)
+(*     detour through an approximation (it cannot hold 1/3 or 2**53 + 1).    *)
+(*     The inverse divides: it is exact when the coefficients come from a    *)
+(*     field (all Fractions); int / int is Python's true division and is not *)
+(*     judged for its kind (NA), nor for a float beyond the bounds (SKIP).   *)
+ExactKinds == {0, 1, 3, 6, 7}
+FloatKinds == {2, 8}
+RKinds(r) == IF r.t = "mv" THEN { r.mv[i][2][3] : i \in 1..Len(r.mv) }
+             ELSE IF r.t = "sc" THEN { r.sc[3] } ELSE {}
+RInexact(r) == 8 \in RKinds(r)
+KindOK(R) ==      \* R: a set of recorded values
+    IF \E r \in R : r.t \notin {"mv", "sc"} THEN "NA"
+    ELSE IF \E r \in R : RKinds(r) \cap FloatKinds # {} THEN "FAIL"
+    ELSE IF \E r \in R : ~(RKinds(r) \subseteq ExactKinds) THEN "SKIP" ELSE "OK"
+MVIsX(r, m, n) == IF r.t = "mv" /\ ~MVBad(m) /\ RInexact(r) THEN "FAIL" ELSE MVIs(r, m, n)
+ScIsX(r, q) == IF r.t = "sc" /\ ~IsBad(q) /\ RInexact(r) THEN "FAIL" ELSE ScIs(r, q)
+SpcClauses(c, o) ==
+    LET g  == c.g
+        n  == c.n
+        A  == MVOfTerms(c.a, g)
+        B  == MVOfTerms(c.b, g)
+        E  == [geo |-> MVProd("geo", A, B, g), out |-> MVProd("out", A, B, g),
+               inn |-> MVProd("inn", A, B, g), scl |-> MVProd("scl", A, B, g),
+               lc  |-> MVProd("lc", A, B, g),  rc  |-> MVProd("rc", A, B, g)]
+        Er == [geo |-> MVProd("geo", B, A, g), out |-> MVProd("out", B, A, g),
+               inn |-> MVProd("inn", B, A, g), scl |-> MVProd("scl", B, A, g),
+               lc  |-> MVProd("lc", B, A, g),  rc  |-> MVProd("rc", B, A, g)]
+        NS == MVNormSq(A, g)
+        fld == \A i \in 1..Len(c.a) : c.a[i][2][3] = 1
+        app == (IsMonomial(A) \/ IsVector(A)) /\ ~MVBad(A) /\ ~IsBad(NS) /\ ~QIsZero(NS)
+        IsI(r, m) == IF fld THEN MVIsX(r, m, n) ELSE MVIs(r, m, n)
+        Tab(name, rr, ee) ==
+            [i \in 1..5 |-> Cl(name, MvOps[i], MVIsX(rr[MvOps[i]], ee[MvOps[i]], n))]
+            \o << Cl(name, "scl", ScIsX(rr.scl, ScalarPart(ee.scl))) >>
+    IN  << \* the space: its dimension, diagonal metric entries = the requested ones
+           Cl("ctor-space", "metric",
+              St(FALSE, /\ o.sp.dims = n /\ o.sp.same = 1 /\ o.sp.offd = 1 /\ Len(o.sp.gm) = n
+                        /\ \A i \in 1..Len(o.sp.gm) : i <= n => QOf(o.sp.gm[i]) = QInt(g[i]))),
+           Cl("exact-kind", "metric",
+              IF \A i \in 1..Len(o.sp.gm) : o.sp.gm[i][3] \in ExactKinds THEN "OK"
+              ELSE IF \E i \in 1..Len(o.sp.gm) : o.sp.gm[i][3] \in FloatKinds THEN "FAIL" ELSE "SKIP"),
+           Cl("ctor-value", "a", MVIsX(o.a, A, n)),
+           Cl("ctor-value", "b", MVIsX(o.b, B, n)) >>
+        \o Tab("table", o.p, E) \o Tab("table-swapped", o.q, Er)
+        \o [i \in 1..6 |-> Cl("exact-kind", AllOps[i], KindOK({ o.p[AllOps[i]], o.q[AllOps[i]] }))]
+        \o << Cl("norm-squared", "norm_squared",
+                 Both(ScIsX(o.nsa, NS), ScIsX(o.nsb, MVNormSq(B, g)))),
+              Cl("exact-kind", "norm_squared", KindOK({ o.nsa, o.nsb })),
+              Cl("pseudoscalar", "I", MVIsX(o.I, MVPseudo(n), n)),
+              Cl("dual", "dual", MVIsX(o.dual, MVDual(A, n, g), n)),
+              Cl("exact-kind", "dual", KindOK({ o.dual, o.I })),
+              Cl("power", "**", MVIsX(o.sq, MVProd("geo", A, A, g), n)),
+              Cl("exact-kind", "**", KindOK({ o.sq })),
+              \* the inverse law, as in the unary kind
+              Cl("inverse", "inv",
+                 IF o.inv.t = "mv"
+                 THEN IF MVBad(A) THEN "SKIP"
+                      \* a float beyond the bounds cannot be the inverse when that is
+                      \* unique and within the bounds
+                      ELSE IF RInexact(o.inv)
+                      THEN (IF fld /\ app /\ ~MVBad(MVInv(A, g)) THEN "FAIL" ELSE "SKIP")
+                      ELSE IF RUnrep(o.inv) THEN "SKIP"
+                      ELSE LET X == RMV(o.inv)
+                               p1 == MVProd("geo", X, A, g)
+                               p2 == MVProd("geo", A, X, g)
+                           IN  St(MVBad(p1) \/ MVBad(p2), p1 = MVOne /\ p2 = MVOne)
+                 ELSE IF app THEN "FAIL" ELSE "NA"),
+              Cl("inverse", "inv*a",
+                 IF o.inv.t = "mv" \/ app
+                 THEN Both(IsI(o.inv_a, MVOne), IsI(o.a_inv, MVOne))
+                 ELSE "NA"),
+              Cl("exact-kind", "inv",
+                 IF fld /\ o.inv.t = "mv" THEN KindOK({ o.inv, o.inv_a, o.a_inv }) ELSE "NA") >>
+
 (******************************** prog *************************************)
 \* a straight-line program over registers: value of every register by the M-layer
 RECURSIVE ProgVals(_, _, _, _)
@@ -400,6 +485,7 @@ Clauses(rec) ==
       [] rec.c.k = "sym"    -> SymClauses(rec.c, rec.o)
       [] rec.c.k = "symeq"  -> SymEqClauses(rec.c, rec.o)
       [] rec.c.k = "hist"   -> HistClauses(rec.c, rec.o)
+      [] rec.c.k = "spc"    -> SpcClauses(rec.c, rec.o)
 
 Report ==
     Idx <= Len(Recs) =>
